@@ -775,7 +775,10 @@ func Run(plan *Plan) *Result {
 				Type:    "sim_action",
 				Factory: func() (pipeline.AnyPlugin, pipeline.AnyConfig) { return &simAction{sim: s}, nil },
 			},
-			MatchMode: pipeline.MatchModeAnd,
+			// every scripted action is conditioned on its own field (records without it skip the action
+			// unless the action is busy); children of a split carry no such field
+			MatchConditions: pipeline.MatchConditions{{Field: []string{fmt.Sprintf("m%d", a)}, Values: []string{"1"}}},
+			MatchMode:       pipeline.MatchModeAnd,
 		})
 	}
 	s.outMain = &simOutput{sim: s, plan: &plan.Output, role: "main"}
